@@ -82,6 +82,12 @@ pub struct Ctx {
     pub crash_at: Option<u64>,
     pub disk_budget: Option<i64>,
     pub clock_value: i64,
+    /// simulated nanoseconds that pass per clock reading (0 = time stands still)
+    pub clock_step_ns: i64,
+    clock_ns: i64,
+    /// number of CPUs the process appears to have
+    pub cpus: u32,
+    pub cpu_calls: u32,
     pub pid_value: i32,
 
     // results
@@ -118,6 +124,10 @@ impl Ctx {
             crash_at: None,
             disk_budget: None,
             clock_value: 1_700_000_000,
+            clock_step_ns: 0,
+            clock_ns: 0,
+            cpus: 0,
+            cpu_calls: 0,
             pid_value: 4242,
             seq: 0,
             counters: BTreeMap::new(),
@@ -1163,10 +1173,10 @@ pub unsafe extern "C" fn clock_gettime(clk: libc::clockid_t, ts: *mut libc::time
         Some(g) => {
             let ctx = &mut *g.ctx;
             ctx.clock_calls += 1;
-            ctx.clock_value += 1;
+            ctx.clock_ns += ctx.clock_step_ns;
             if !ts.is_null() {
-                (*ts).tv_sec = ctx.clock_value;
-                (*ts).tv_nsec = 0;
+                (*ts).tv_sec = ctx.clock_value + ctx.clock_ns / 1_000_000_000;
+                (*ts).tv_nsec = ctx.clock_ns % 1_000_000_000;
             }
             ctx.note("clock_gettime".to_string());
             0
@@ -1181,10 +1191,10 @@ pub unsafe extern "C" fn gettimeofday(tv: *mut libc::timeval, _tz: *mut c_void) 
         Some(g) => {
             let ctx = &mut *g.ctx;
             ctx.clock_calls += 1;
-            ctx.clock_value += 1;
+            ctx.clock_ns += ctx.clock_step_ns;
             if !tv.is_null() {
-                (*tv).tv_sec = ctx.clock_value;
-                (*tv).tv_usec = 0;
+                (*tv).tv_sec = ctx.clock_value + ctx.clock_ns / 1_000_000_000;
+                (*tv).tv_usec = (ctx.clock_ns % 1_000_000_000) / 1000;
             }
             ctx.note("gettimeofday".to_string());
             0
@@ -1206,12 +1216,54 @@ pub unsafe extern "C" fn time(t: *mut libc::time_t) -> libc::time_t {
         Some(g) => {
             let ctx = &mut *g.ctx;
             ctx.clock_calls += 1;
-            ctx.clock_value += 1;
+            ctx.clock_ns += ctx.clock_step_ns;
+            let now = ctx.clock_value + ctx.clock_ns / 1_000_000_000;
             if !t.is_null() {
-                *t = ctx.clock_value;
+                *t = now;
             }
             ctx.note("time".to_string());
-            ctx.clock_value
+            now
+        }
+    }
+}
+
+#[no_mangle]
+pub unsafe extern "C" fn sched_getaffinity(pid: libc::pid_t, size: size_t, mask: *mut libc::cpu_set_t) -> c_int {
+    match enter() {
+        None => {
+            let r = libc::syscall(libc::SYS_sched_getaffinity, pid as c_long, size, mask);
+            if r < 0 {
+                -1
+            } else {
+                // the raw call returns the number of bytes written: clear the rest like glibc
+                let written = r as usize;
+                if written < size {
+                    std::ptr::write_bytes((mask as *mut u8).add(written), 0, size - written);
+                }
+                0
+            }
+        }
+        Some(g) => {
+            let ctx = &mut *g.ctx;
+            ctx.cpu_calls += 1;
+            ctx.note("sched_getaffinity".to_string());
+            if ctx.cpus == 0 {
+                let r = libc::syscall(libc::SYS_sched_getaffinity, pid as c_long, size, mask);
+                if r < 0 {
+                    return -1;
+                }
+                let written = r as usize;
+                if written < size {
+                    std::ptr::write_bytes((mask as *mut u8).add(written), 0, size - written);
+                }
+                return 0;
+            }
+            std::ptr::write_bytes(mask as *mut u8, 0, size);
+            let bytes = mask as *mut u8;
+            for c in 0..(ctx.cpus as usize).min(size * 8) {
+                *bytes.add(c / 8) |= 1 << (c % 8);
+            }
+            0
         }
     }
 }
